@@ -102,8 +102,10 @@ def run(eng, R):
                     inserting.append((s, ["<%s argument>" % attr]))
         sat_parent = eng.satisfying_nodes(cls, f, has_add_parent_self)
         # all-elements idiom: `for c in self._children: c.add_parent(self)` (zero iterations = nothing was inserted)
+        # (the loop may run over self._children or over the local list that was just stored there)
+        stored_locals = {st_.value.id for st_ in ast.walk(f.node) if isinstance(st_, ast.Assign) and any(self_attr(t) == "_children" for t in st_.targets) and isinstance(st_.value, ast.Name)}
         for n in g.nodes:
-            if n.kind == "for" and self_attr(n.expr) == "_children" and isinstance(n.stmt.target, ast.Name):
+            if n.kind == "for" and (self_attr(n.expr) == "_children" or (isinstance(n.expr, ast.Name) and n.expr.id in stored_locals)) and isinstance(n.stmt.target, ast.Name):
                 for c in ast.walk(n.stmt):
                     if isinstance(c, ast.Call) and _is_call_on(c, "add_parent", arg0_self=True) and isinstance(c.func.value, ast.Name) \
                             and c.func.value.id == n.stmt.target.id and not common.guard_conditions_inside(n.stmt, c):
